@@ -147,6 +147,9 @@ class Ob:
         if self.assumptions is None or getattr(self, 'frozen', None) is not None:
             return
         fz = {'main': self.smt2()}
+        if any(k.endswith('#str') for k in (self.meta.get('observe') or {})):
+            from .sv import STR
+            self.meta['strs'] = dict(STR.rev)
         if self.must == 'valid':
             fz['relaxed'] = self.smt2_relaxed()
         else:
@@ -160,6 +163,7 @@ class Ob:
         d['assumptions'] = [] if self.assumptions is not None else None
         d['goal'] = None
         m = dict(d.get('meta') or {})
+        m['observe_names'] = sorted((m.get('observe') or {}).keys())
         m.pop('observe', None)
         m.pop('extra_assumptions', None)
         d['meta'] = m
